@@ -159,3 +159,45 @@ def far_canted_pair(rng):
     t = rng.uniform(15, 30, size=3) * rng.choice([-1., 1.], size=3)
     return Pi @ R.T + t, R @ ni, Pj @ R.T + t, R @ nj
 
+
+
+def touching_general_pair(rng, kind=None, share=None):
+    """Two convex patches of equal vertex count (parallelograms / triangles, strongly skewed ones included) in two planes
+    meeting along the x axis at a dihedral angle of 60..120 degrees, sharing exactly ONE VERTEX (`share='vertex'`, the origin)
+    or one whole EDGE (`share='edge'`), every vertex-list start and a random rigid motion.  The shared vertex is an end of the
+    LONG diagonal of a parallelogram in half of the cases (its centre is then far from that corner).
+    Returns (Pi, ni, Pj, nj) with the normals facing each other's half space."""
+    kind = kind or ['para', 'tri'][int(rng.integers(0, 2))]
+    share = share or ['vertex', 'edge'][int(rng.integers(0, 2))]
+
+    def flat(first):
+        s = rng.uniform(0.4, 2.5)
+        if share == 'edge':
+            e1 = np.array([first, 0.0])
+        else:
+            a1 = np.deg2rad(rng.uniform(15, 165))
+            e1 = s * np.array([np.cos(a1), np.sin(a1)])
+        lo = np.arctan2(e1[1], e1[0])
+        a2 = rng.uniform(lo + np.deg2rad(20), np.deg2rad(165)) if lo < np.deg2rad(140) else lo + np.deg2rad(10)
+        e2 = s * rng.uniform(0.6, 1.6) * np.array([np.cos(a2), np.sin(a2)])
+        if kind == 'para':
+            return np.array([[0, 0], e1, e1 + e2, e2])
+        return np.array([[0, 0], e1, e2])
+    edge = float(rng.uniform(0.4, 2.5))
+    Qi, Qj = flat(edge), flat(edge)
+    th = np.deg2rad(rng.uniform(60, 120))
+    Pi = np.array([[u, v, 0.0] for u, v in Qi])
+    d = np.array([0, np.cos(th), np.sin(th)])
+    Pj = np.array([np.array([u, 0, 0]) + v * d for u, v in Qj])
+    ni = np.array([0, 0, 1.0])
+    nj = np.cross(Pj[1] - Pj[0], Pj[2] - Pj[0])
+    nj /= np.linalg.norm(nj)
+    if nj @ np.array([0, 1.0, 0]) < 0 and th < np.pi / 2 or (nj @ (Pi.mean(0) - Pj.mean(0)) < 0):
+        Pj = Pj[::-1].copy()
+        nj = np.cross(Pj[1] - Pj[0], Pj[2] - Pj[0])
+        nj /= np.linalg.norm(nj)
+    k1, k2 = int(rng.integers(0, len(Pi))), int(rng.integers(0, len(Pj)))
+    Pi, Pj = np.roll(Pi, k1, axis=0), np.roll(Pj, k2, axis=0)
+    if rng.random() < 0.7:
+        Pi, ni, Pj, nj = rigid(rng, Pi, ni, Pj, nj)
+    return Pi, ni, Pj, nj
